@@ -16,7 +16,8 @@ import netdrive
 KNOWN_WIPE = {"kind": "double-crash-state-wipe"}
 KNOWN_FAST = {"kind": "fastvote-before-cert"}
 KNOWN_STALECERT = {"kind": "panic-stale-cert-bundle"}
-SCENARIOS = ["doublecommit", "fastcommit", "latepayload", "stalecert"]   # harness/agreement/zz_verif_netdrive_scen_test.go
+KNOWN_TRIM = {"kind": "trim-drops-staged-payload"}
+SCENARIOS = ["doublecommit", "fastcommit", "latepayload", "stalecert", "trimdrop"]   # harness/agreement/zz_verif_netdrive_scen_test.go
 
 
 # ----------------------------------------------------------------------------- analysis
@@ -109,7 +110,9 @@ def analyse(ctx, shard, stats, corpus_name=None):
         fast = any(l.startswith("ATTEST ") and ((netdrive.kv(l).get("step") in ("254", "255") and netdrive.kv(l).get("pstep") in ("1", "2")) or
                                                 (netdrive.kv(l).get("step") == "253" and netdrive.kv(l).get("pstep") == "1")) for l in log)
         fast = fast and any(r[2].split()[-1] in ("cert-after-next", "soft-after-next") for r in rejects)
-        mk = KNOWN_WIPE if wipe else (KNOWN_FAST if fast else None)
+        # a node next-votes another value (⊥) than its own cert vote of the period: proposalStore.trim dropped the staged payload
+        trim = (not wipe) and (not fast) and any(r[2].split()[-1] == "next-own-cert" for r in rejects)
+        mk = KNOWN_WIPE if wipe else (KNOWN_FAST if fast else (KNOWN_TRIM if trim else None))
         if conflict or abstract_violation:
             r0 = sorted(conflict)[0] if conflict else None
             what = ("two different blocks committed for round %s: %s" % (r0, json.dumps(conflict[r0])) if conflict
@@ -120,6 +123,8 @@ def analyse(ctx, shard, stats, corpus_name=None):
                 what += " [crash state wiped by the re-executed attest after a restore; second crash forgets the round's votes]"
             if fast and not wipe:
                 what += " [fast-recovery vote cast while player.Step ≤ cert, earlier step's vote cast afterwards]"
+            if trim:
+                what += " [a node next-voted ⊥ after its own cert vote: the staged value's payload was dropped by proposalStore.trim]"
             if ctx.violation(what, replay, found_input=True, match_key=mk):
                 stats["violations"] += 1
         else:
